@@ -39,11 +39,15 @@ CONT = {"k": "cont"}
 def ret(e): return {"k": "ret", "e": e}
 def throw(cls, *args): return {"k": "throw", "cls": cls, "args": list(args)}
 def catch(cls, body): return {"cls": cls, "body": list(body)}
-def func(name, params, body, catches=()): return {"name": name, "params": list(params), "body": list(body), "catches": list(catches)}
+def func(name, params, body, catches=(), mod=0): return {"name": name, "params": list(params), "body": list(body), "catches": list(catches), "mod": mod}
 def cls(name, props, ctor=None, methods=()):
     return {"name": name, "props": [{"n": n, "e": e} for n, e in props], "ctor": [ctor] if ctor else [], "methods": list(methods)}
-def prog(main, funcs=(), classes=(), catches=(), inputs=()):
-    return {"funcs": list(funcs), "classes": list(classes), "main": list(main), "catches": list(catches), "inputs": list(inputs)}
+def prog(main, funcs=(), classes=(), catches=(), inputs=(), mods=(), imports=()):
+    """mods: module files [{"name", "imports": [k..]}] (functions with mod=k live in mods[k-1]); imports: modules the main file imports"""
+    p = {"funcs": list(funcs), "classes": list(classes), "main": list(main), "catches": list(catches), "inputs": list(inputs)}
+    if mods:
+        p["mods"] = list(mods); p["imports"] = list(imports)
+    return p
 
 
 # ------------------------------------------------------------------ value comparison
@@ -91,22 +95,28 @@ def compare(p, sv, rv):
     if rv["obs"] == "error" and rv.get("errkind") == "syntax":
         return [("syntax-error", rv.get("msg", ""))]
     lmap = rv["lmap"]
+    multi = bool(p.get("mods"))
+    def modof(path):
+        b = path[0]
+        return p["funcs"][b - 1].get("mod", 0) if 1 <= b < 100 and b <= len(p["funcs"]) else 0
     def line(path):
-        return lmap.get(",".join(str(x) for x in path))
+        l = lmap.get(",".join(str(x) for x in path))
+        return (modof(path), l) if multi else l          # (file, line) in a multi-file program
     # 1. executed-statement trace (control-flow path), call depth, scope-depth consistency
     st = sv["tr"]
     ev = rv.get("ev") or []
     n = min(len(st), len(ev))
     div = None
+    evl = (lambda e: (e.get("m", 0), e["l"])) if multi else (lambda e: e["l"])
     for i in range(n):
-        if line(st[i]["p"]) != ev[i]["l"]:
+        if line(st[i]["p"]) != evl(ev[i]):
             div = i
             break
     if div is None and len(st) != len(ev):
         div = n
     if div is not None:
         want = line(st[div]["p"]) if div < len(st) else "end"
-        got = ev[div]["l"] if div < len(ev) else "end"
+        got = evl(ev[div]) if div < len(ev) else "end"
         ms.append(("path-divergence", "statement #%d: spec executes line %s, interpreter executes line %s" % (div + 1, want, got)))
     lim = div if div is not None else n
     for i in range(lim):
@@ -155,6 +165,8 @@ def compare(p, sv, rv):
                     ms.append(("error-message", "uncaught exception message: spec %r, interpreter %r" % (sr["msg"], got)))
             want = [line(pth) for pth in sr["chain"]]
             got = rv.get("chain") or []
+            if multi:
+                got = list(zip(rv.get("chainm") or [], got))
             if sr["arity"]:
                 # fault while binding a call: an extra innermost entry for the half-made call is tolerated
                 if got != want and got[:-1] != want:
